@@ -66,7 +66,7 @@ class RandomBuilder(ConcreteBuilder):
         return super().case(name, n)
 
 
-def _interference_calls(contract, vals, stubs, rng, k=3):
+def _interference_calls(contract, vals, stubs, rng, k=4):
     from .replay import ConcreteBuilder, Materializer, install_stubs
     from .verify import resolve_target
     names = [n for n, v in vals.items() if isinstance(v, (bool, int))]
@@ -80,7 +80,11 @@ def _interference_calls(contract, vals, stubs, rng, k=3):
             if isinstance(v, bool):
                 v2[name] = not v
             else:
-                v2[name] = v + rng.choice([1, -1, 2 ** 8, rng.randrange(1, 2 ** 64)])
+                # neighbours, single-bit flips and (for scalars) the negated key: same x coordinate, other parity
+                cands = [v + 1, v - 1, v + 2 ** 8, v ^ 1, v + rng.randrange(1, 2 ** 64)]
+                if v > 2 ** 64:
+                    cands += [v ^ (1 << rng.randrange(0, 256)), U.N - 2 - v, U.N - v]
+                v2[name] = rng.choice(cands)
             ctx = Ctx([])
             CB = ConcreteBuilder(ctx, v2)
             try:
@@ -127,7 +131,8 @@ def bounded_contract(contract, seed, n=300, budget_s=20.0, prf_corners=True):
         if prf_corners and rng.random() < 0.5:
             k = vals.get("self_k", 1)
             il = rng.choice([0, 1, U.N - 1, U.N, U.N + 1, 2 ** 256 - 1, (U.N - k) % U.N, rng.randrange(2 ** 256)])
-            stubs = [["hmac512*", [], il.to_bytes(32, "big").hex()]]
+            side = rng.choice(["L", "L", "R"])           # force the left (key) half or the right half of the PRF output
+            stubs = [["hmac512*", [], f"{side}:{il.to_bytes(32, 'big').hex()}"]]
         # interference probe: first call the real function on one-variable perturbations of the sample
         # (fresh objects), so that state shared between calls (module / class-level caches keyed by a
         # subset of the inputs) is poisoned before the call that is checked
